@@ -8,7 +8,7 @@ from ..core import astutil as A
 from ..core.loader import AnalysisError
 from ..core.report import norm
 from ..core.symtab import UNKNOWN, FuncInfo
-from ..engines import bytelayout, ordereval
+from ..engines import bytelayout, ordereval, roundtrip
 
 SYM = "spsdk/crypto/symmetric.py"
 HASH = "spsdk/crypto/hash.py"
@@ -521,14 +521,21 @@ def rule_keystore(ctx, P: str = "C09") -> None:
     ks = ctx.cls(KEYSTORE, "KeyStore")
     for name, (key, block, klen) in KEYSTORE_REF.items():
         fn = ctx.own(KEYSTORE, "KeyStore", name)
-        r = A.returns_in(fn.node)
-        e = A.inline_locals(fn.node, r[0].value) if len(r) == 1 else None
-        ok = False
-        got: Any = None
-        if isinstance(e, ast.Call) and A.call_name(e) == "aes_ecb_encrypt" and len(e.args) == 2:
-            got = (norm(e.args[0]), ctx.prog.fold(e.args[1], fn.module, ks))
-            ok = got == (key, block)
-        chk.decide(ok, f"{P}.keystore-constants", fn.qual, f"aes_ecb_encrypt({key}, {block.hex()})", f"{(got[0], got[1].hex() if isinstance(got[1], bytes) else got[1]) if got else norm(e) if e is not None else ''}",
+        # whole-function evaluation (helpers stepped into): the function hands exactly (its key argument, the documented block) to AES-ECB
+        keyv = bytes(range(7, 7 + klen))
+
+        def leaves(c: ast.Call, ev):
+            if norm(c.func) == "aes_ecb_encrypt" and len(c.args) == 2 and not c.keywords:
+                return ("ecb", bytes(ev.ev(c.args[0])), bytes(ev.ev(c.args[1])))
+            return roundtrip.std_leaves(c, ev)
+        try:
+            out = ordereval.Evaluator({a.arg: keyv for a in fn.node.args.args}, ctx.fold_sym(fn), opaque_return=False,
+                                      call_value=ctx.model_calls(leaves, classes={"KeyStore": ks}, module=KEYSTORE)).run(A.body_of(fn.node))
+            got = (out.kind, out.value)
+        except ordereval.Unsupported as ex:
+            raise AnalysisError(f"{P}.keystore-constants: {fn.qual} left the fragment: {ex}")
+        ok = got == ("return", ("ecb", keyv, block))
+        chk.decide(ok, f"{P}.keystore-constants", fn.qual, f"aes_ecb_encrypt({key}, {block.hex()})", f"{got[0]} {got[1][2].hex() if isinstance(got[1], tuple) and len(got[1]) == 3 else got[1]!r}"[:200],
                    f"({key}, {block.hex()})", A.loc(KEYSTORE, fn.node))
         cex = None
         for L in (0, 16, 31, 32, 33, 64):
@@ -550,26 +557,31 @@ def rule_keystore(ctx, P: str = "C09") -> None:
 def rule_kdf(ctx, P: str = "C09") -> None:
     chk = ctx.chk
     fn = ctx.func(KDF, "_get_key_derivation_data")
-    fold = lambda e: ctx.prog.fold(e, fn.module)  # noqa: E731
-    lay = bytelayout.Layout(fold, fn.node)
-    res = lay.run(A.body_of(fn.node))
-    if res is None:
-        raise AnalysisError(f"{P}.kdf-layout: no return layout")
-    res = bytelayout.merge_consts(res)
-    got = [f.desc() for f in res]
-    want = [
-        (12, "int", "little", "derivation_constant"),
-        (8, "const", "00" * 8),
-        (1, "int", "big", "kdk_access_rights << 6"),
-        (1, "alt", "mode == KeyDerivationMode.KDK", [[(1, "const", "01")], [(1, "const", "10")]]),
-        (1, "const", "00"),
-        (1, "int", "big", "32 if key_length == 128 else 33"),
-        (4, "int", "big", "key_length"),
-        (4, "int", "big", "iteration"),
-    ]
-    chk.decide(got == want, f"{P}.kdf-layout", fn.qual, "32-byte derivation record: 12-byte LE constant | 8 zero | rights<<6 | mode 01/10 | 0 | key option 20/21 | BE key length | BE iteration",
-               f"{got}", f"{want}", A.loc(KDF, fn.node))
-    chk.decide(bytelayout.total(res) == 32, f"{P}.kdf-layout", fn.qual + " size", "record is 32 bytes", f"{bytelayout.total(res)}", "32", A.loc(KDF, fn.node))
+    # whole-function evaluation on every combination of the small parameter domains (and three derivation constants) against the
+    # documented 32-byte record: 12-byte LE constant | 8 zero | rights<<6 | mode 01/10 | 0 | key option 20/21 | BE key length | BE iteration
+    kdm = ctx.enum_model(ctx.cls(KDF, "KeyDerivationMode"))
+    if kdm is None:
+        raise AnalysisError(f"{P}.kdf-layout: KeyDerivationMode does not fold to an enum model")
+    sym_map0 = {"Endianness.LITTLE": ordereval.Obj(value="little"), "Endianness.BIG": ordereval.Obj(value="big"), "KeyDerivationMode": kdm}
+    calls0 = ctx.model_calls(roundtrip.std_leaves, sym_map0, module=KDF)
+    bad_l: List[str] = []
+    n_l = 0
+    for dc in (0, 0x0102030405, (1 << 96) - 2):
+        for rights in (0, 1, 2, 3):
+            for mode_m, mode_b in ((kdm.KDK, b"\x01"), (kdm.BLK, b"\x10")):
+                for kl, opt in ((128, 0x20), (256, 0x21)):
+                    for it in (1, 2):
+                        want_r = dc.to_bytes(12, "little") + bytes(8) + bytes([rights << 6]) + mode_b + b"\x00" + bytes([opt]) + kl.to_bytes(4, "big") + it.to_bytes(4, "big")
+                        try:
+                            o = ordereval.Evaluator({"derivation_constant": dc, "kdk_access_rights": rights, "mode": mode_m, "key_length": kl, "iteration": it},
+                                                    ctx.fold_sym(fn, sym_map0), opaque_return=False, call_value=calls0).run(A.body_of(fn.node))
+                        except ordereval.Unsupported as ex:
+                            raise AnalysisError(f"{P}.kdf-layout: {fn.qual} left the fragment: {ex}")
+                        n_l += 1
+                        if not (o.kind == "return" and isinstance(o.value, (bytes, bytearray)) and bytes(o.value) == want_r):
+                            bad_l.append(f"constant {dc:#x}, rights {rights}, mode {mode_m.label}, length {kl}, iteration {it}: {o.kind} {bytes(o.value).hex() if isinstance(o.value, (bytes, bytearray)) else o.value!r} (expected {want_r.hex()})")
+    chk.decide(not bad_l, f"{P}.kdf-layout", fn.qual, f"32-byte derivation record: 12-byte LE constant | 8 zero | rights<<6 | mode 01/10 | 0 | key option 20/21 | BE key length | BE iteration ({n_l} models)",
+               "; ".join(bad_l[:2])[:600], "", A.loc(KDF, fn.node))
     # guards
     gs = [norm(s.test) for s in A.body_of(fn.node) if isinstance(s, ast.If) and A.always_raises(s.body)]
     chk.decide("kdk_access_rights not in [0, 1, 2, 3]" in gs and "key_length not in [128, 256]" in gs, f"{P}.kdf-guards", fn.qual, "rejects rights outside 0..3 and key lengths other than 128/256", f"{gs}", "", A.loc(KDF, fn.node))
